@@ -91,6 +91,13 @@ func Simulate(g *gram.Grammar, c *gram.CFG, tbl *lalr.Table, opt gram.HarnessOpt
 			methodOf[[2]int{m.Rule, pi}] = m.ID
 		}
 	}
+	return SimulateWith(g, c, tbl, methodOf, opt.Bounds, toks)
+}
+
+// SimulateWith is Simulate with an explicit (rule, production) -> method id
+// map (for harnesses whose method layout is not the default one).
+func SimulateWith(g *gram.Grammar, c *gram.CFG, tbl *lalr.Table, methodOf map[[2]int]int, bounds bool, toks []hc.Token) (*Expected, error) {
+	opt := gram.HarnessOpt{Bounds: bounds}
 	exp := &Expected{}
 	nextID := 0
 	stack := []entry{{state: 0}}
